@@ -37,6 +37,9 @@ class Sequence:
 
     def __init__(self, *sequences_or_jobs, required=None, scheduler=None):
         self.jobs = self._flatten(sequences_or_jobs)
+        # the requirements received while the sequence had no job yet;
+        # they go to the first job, whenever it shows up
+        self._pending = []
         # create the chain of requirements in the sequence
         for job1, job2 in zip(self.jobs, self.jobs[1:]):
             job2.requires(job1)
@@ -44,6 +47,8 @@ class Sequence:
         # actually apply to the first item
         if self.jobs:
             self.jobs[0].requires(required)
+        else:
+            self._pending += self._resolve([required])
         # make all jobs belong in the scheduler if provided
         self.scheduler = scheduler
         if self.scheduler is not None:
@@ -65,6 +70,25 @@ class Sequence:
                 result += joblike.jobs
         return result
 
+    @staticmethod
+    def _resolve(requirements):
+        """
+        given requirements in any of the forms accepted by
+        AbstractJob.requires(), returns the list of jobs that they stand for
+        at this point
+        """
+        result = []
+        for requirement in requirements:
+            if requirement is None:
+                continue
+            if isinstance(requirement, AbstractJob):
+                result.append(requirement)
+            elif isinstance(requirement, Sequence):
+                result += requirement.jobs[-1:]
+            else:
+                result += Sequence._resolve(list(requirement))
+        return result
+
     def append(self, *sequences_or_jobs):
         """
         Add these jobs or sequences at the end of the present sequence.
@@ -80,6 +104,11 @@ class Sequence:
         for job1, job2 in zip(chain, chain[1:]):
             job2.requires(job1)
         self.jobs += new_jobs
+        # the first job has just arrived: it gets the requirements
+        # that the sequence has received so far
+        if self.jobs and self._pending:
+            self.jobs[0].requires(self._pending)
+            self._pending = []
         if self.scheduler is not None:
             self.scheduler.update(new_jobs)
 
@@ -93,6 +122,7 @@ class Sequence:
 
         """
         if not self.jobs:
-            # warning ?
+            # keep them for the first job
+            self._pending += self._resolve(requirements)
             return
         self.jobs[0].requires(*requirements)
